@@ -295,6 +295,7 @@ def make_registry():
         reg.inline.add(f"{DS}:Dataset.{g}")  # one-line property getters (the setters never reach this: see above)
     for n in ("virtual_images", "virtual_detectors"):
         reg.inline.add(f"{MODS['Dataset4dstem']}:Dataset4dstem.{n}")
+    reg.inline.add(f"{DS}:Dataset._normalize_axes")  # axis normalisation helper (added by the C06 fix: commit), interpreted in place
     for n in CLS:
         reg.abstract_classes.add(f"{MODS[n]}:{n}")
     return reg
